@@ -64,9 +64,9 @@ func (c *ackqCore) handle(ws []string) string {
 		case "pub":
 			qos, id := atoi(ws[2]), atoi(ws[3])
 			if ws[4] == "!" {
-				// a PUBLISH that cannot be serialised: built from fields with an empty payload
+				// a PUBLISH that cannot be serialised: built from fields without a topic name
 				p := message.NewPublishMessage()
-				p.SetTopic([]byte("t"))
+				p.SetPayload([]byte("x"))
 				p.SetQoS(byte(qos))
 				p.SetPacketID(uint16(id))
 				msg = p
